@@ -32,18 +32,52 @@
 (***************************************************************************)
 EXTENDS Naturals, Integers
 
-CONSTANTS Unit,        \* time units per second
-          HSet,        \* the negotiated heartbeat values (seconds) considered
-          Horizon,     \* model checking only: time stops here
-          Slack,       \* a due timer fires at most this late
-          Early,       \* ... and at most this early
-          Fudge,       \* an interval counts as elapsed when this close to it (code: 5 ms)
-          BugRxRestartFull,          \* rx timer re-armed for the full 2h after an activity check
-          BugTxRestartFull,          \* tx timer re-armed for the full h after an activity check
-          BugRxCountsOnlyHeartbeats  \* only heartbeat frames refresh lastRx
+CONSTANTS
+    \* @type: Int;
+    Unit,        \* time units per second
+    \* @type: Set(Int);
+    HSet,        \* the negotiated heartbeat values (seconds) considered
+    \* @type: Int;
+    Horizon,     \* model checking only: time stops here
+    \* @type: Int;
+    Slack,       \* a due timer fires at most this late
+    \* @type: Int;
+    Early,       \* ... and at most this early
+    \* @type: Int;
+    Fudge,       \* an interval counts as elapsed when this close to it (code: 5 ms)
+    \* @type: Bool;
+    BugRxRestartFull,          \* rx timer re-armed for the full 2h after an activity check
+    \* @type: Bool;
+    BugTxRestartFull,          \* tx timer re-armed for the full h after an activity check
+    \* @type: Bool;
+    BugRxCountsOnlyHeartbeats  \* only heartbeat frames refresh lastRx
 
-VARIABLES h, now, lastRx, lastTx, rxDue, txDue, outQueued, dead,
-          srvLast, steady, deadAt, nHb
+\* (type annotations are for Apalache - HeartbeatInd.tla; TLC ignores them)
+VARIABLES
+    \* @type: Int;
+    h,
+    \* @type: Int;
+    now,
+    \* @type: Int;
+    lastRx,
+    \* @type: Int;
+    lastTx,
+    \* @type: Int;
+    rxDue,
+    \* @type: Int;
+    txDue,
+    \* @type: Bool;
+    outQueued,
+    \* @type: Bool;
+    dead,
+    \* @type: Int;
+    srvLast,
+    \* @type: Bool;
+    steady,
+    \* @type: Int;
+    deadAt,
+    \* @type: Int;
+    nHb
 
 hbvars == <<h, now, lastRx, lastTx, rxDue, txDue, outQueued, dead, srvLast, steady, deadAt, nHb>>
 
